@@ -396,6 +396,7 @@ func runC18(e *Engine, r *Report) {
 	ruleRestoreRegistersAll(e, r)
 	ruleRemovedLeaderStepsDown(e, r)
 	ruleConfirmFromAllVoters(e, r)
+	ruleHeartbeatRespProducer(e, r)
 	borrow(e, r, "C20", "TBL-import-validators")
 	borrow(e, r, "C03", "GD-campaign")
 }
